@@ -468,8 +468,14 @@ class Name(str):
     def _unsup(self, *a, **k):
         raise Unsupported("unmodelled string operation on an opaque name")
 
-    __contains__ = __len__ = __getitem__ = __iter__ = _unsup
+    __len__ = __getitem__ = __iter__ = _unsup
     __lt__ = __le__ = __gt__ = __ge__ = _unsup
+
+    def __contains__(self, x):
+        # the contracts' precondition on names: no separator, no regex metacharacter, no blank
+        if isinstance(x, str) and type(x) is str and len(x) == 1 and x in ",|()[]{}?*+\\^$ \t\n":
+            return False
+        raise Unsupported("unmodelled string operation on an opaque name")
     split = lower = upper = strip = replace = find = index = isdigit = removeprefix = _unsup
     lstrip = rstrip = partition = rpartition = rsplit = count = _unsup
     capitalize = casefold = center = encode = expandtabs = format = format_map = isalnum = isalpha = isascii = isdecimal = _unsup
